@@ -4,7 +4,7 @@
 // mutable state (a static scratch buffer, a cache, a lazily initialised table).
 //
 //   mtindep <section> <threads> <iterations> <seed>
-//   sections: parse usage format string hash own
+//   sections: parse usage format string hash own fv
 #include <nitro/except/raise.hpp>
 #include <nitro/format/format.hpp>
 #include <nitro/lang/fixed_vector.hpp>
@@ -353,6 +353,54 @@ static std::vector<Job> jobs_own()
     return j;
 }
 
+// fixed_vector of trivially destructible and of non-trivial element types: every container is created,
+// filled, copied, assigned, moved and destroyed by one thread only
+template <typename E, typename Mk>
+static std::string fv_job(int n, Mk&& mk)
+{
+    return guarded([&] {
+        std::ostringstream s;
+        std::size_t cap = n % 3 == 0 ? 8 : (n % 3 == 1 ? 64 : 2048);
+        for (int round = 0; round < 3; ++round)
+        {
+            nitro::lang::fixed_vector<E> v(cap);
+            for (std::size_t i = 0; i < cap - (static_cast<std::size_t>(n) % 3); ++i)
+                v.emplace_back(mk(n * 100000 + round * 10000 + static_cast<int>(i)));
+            nitro::lang::fixed_vector<E> c(v);
+            nitro::lang::fixed_vector<E> a(cap);
+            a = v;
+            std::size_t bad = 0;
+            for (std::size_t i = 0; i < v.size(); ++i)
+                bad += !(v.at(i) == mk(n * 100000 + round * 10000 + static_cast<int>(i))) + !(c[i] == v[i]) + !(a[i] == v[i]);
+            nitro::lang::fixed_vector<E> m(std::move(c));
+            v.erase(v.begin());
+            v.pop_back();
+            try
+            {
+                while (true)
+                    a.emplace_back(mk(-1));
+            }
+            catch (std::exception&)
+            {
+            }
+            s << v.size() << "/" << v.capacity() << ":" << m.size() << ":" << a.size() << ":" << bad << " ";
+        }
+        return s.str();
+    });
+}
+
+static std::vector<Job> jobs_fv()
+{
+    std::vector<Job> j;
+    for (int n = 0; n < 9; ++n)
+    {
+        j.push_back([n] { return fv_job<std::int64_t>(n, [](int x) { return static_cast<std::int64_t>(x) * 3; }); });
+        j.push_back([n] { return fv_job<int>(n, [](int x) { return x; }); });
+        j.push_back([n] { return fv_job<std::string>(n, [](int x) { return "element number " + std::to_string(x); }); });
+    }
+    return j;
+}
+
 int main(int argc, char** argv)
 {
     if (argc < 5)
@@ -380,6 +428,8 @@ int main(int argc, char** argv)
         jobs = jobs_hash();
     else if (section == "own")
         jobs = jobs_own();
+    else if (section == "fv")
+        jobs = jobs_fv();
     else
         return 2;
 
